@@ -361,7 +361,7 @@ inductive Ev
   | lsnap                     -- take an image of the leader's partition directory
   | lrestore (k : Nat)        -- leader restarts from the k-th newest image (= loses its log tail); newer images are discarded
   | lrestart                  -- leader restarts on its current directory
-  | offline (w : Who)         -- follower disappears from the live nodes
+  | offline (w : Who)         -- follower disappears from the live nodes (stateManager.onNodeFailure: the pooled connection is closed)
   | online (w : Who) (f : Fault) -- follower (re)appears; a parked loop resumes its replica call
   | steponl (w : Who) (f : Fault) -- a replica call that finds the follower offline and marks itself suspended, and the
                                   -- online notification arrives BEFORE the loop blocks on the receive
@@ -393,7 +393,7 @@ def peerEv (cfg : Cfg) (s : St) : Ev → St × Out
   | .frestart _ => ({ s with stream := brokenStream s.stream }, .idle)
   | .flose _ => ({ s with F := Log.empty, stream := brokenStream s.stream }, .idle)
   | .fclose _ => ({ s with F := Log.empty, closed := true, dz := true }, .idle)
-  | .offline _ => ({ s with live := false }, .idle)
+  | .offline _ => ({ s with live := false, stream := brokenStream s.stream }, .idle)   -- onNodeFailure: watchers notified, then CloseClientConn: every stream on the pooled connection dies
   | .join _ =>
     -- buildReplica: an existing replicator is kept; else GetOrCreateConsumerGroup + a new remoteReplicator.
     -- NewConsumerGroup: an existing group directory is loaded with the re-open lifts, a brand-new group
@@ -456,5 +456,94 @@ def run (cfg : Cfg) (evs : List Ev) : St := evs.foldl (fun s e => (next cfg s e)
 def Synced (s : St) : Prop := s.chan = .ready ∧ s.stream = .up
 
 instance (s : St) : Decidable (Synced s) := by unfold Synced; infer_instance
+
+/-! ## side model 1: `partition.replicators` / `partition.replicatorStatistics`, one follower
+
+`buildReplica` publishes an entry in BOTH copy-on-write maps, `stopReplicator` (the expiry check on a
+drained group) removes the follower from `p.replicators` only. In the main model `stopped = !repl`;
+the `join` event's guard `s.stopped` is buildReplica's existence test on `p.replicators`. -/
+namespace Maps
+
+inductive Sel | repl | stats
+  deriving DecidableEq, Repr
+
+structure M where
+  repl : Bool    -- follower ∈ p.replicators
+  stats : Bool   -- follower ∈ p.replicatorStatistics
+  deriving DecidableEq, Repr
+
+def M.has (m : M) : Sel → Bool
+  | .repl => m.repl
+  | .stats => m.stats
+
+/-- `buildReplica` whose "already built" test reads map `t` -/
+def build (t : Sel) (m : M) : M := if m.has t then m else { repl := true, stats := true }
+
+/-- `stopReplicator` -/
+def stop (m : M) : M := if m.repl then { m with repl := false } else m
+
+inductive Op | build | stop
+  deriving DecidableEq, Repr
+
+def step (t : Sel) (m : M) : Op → M
+  | .build => build t m
+  | .stop => stop m
+
+def run (t : Sel) (ops : List Op) : M := ops.foldl (step t) { repl := false, stats := false }
+
+end Maps
+
+/-! ## side model 2: the leader's pooled connection to one follower and the replicator's client stub
+
+`rpc.clientConnFactory`: one `*grpc.ClientConn` per node, dialled on demand; `CloseClientConn`
+(called by `stateManager.onNodeFailure` after the watchers were notified) closes it and removes it from
+the pool. `CreateReplicaServiceClient` = a stub bound to the connection `GetClientConn` returns at that
+moment; a stub on a closed connection fails every call. In the main model the unary calls of the
+handshake fail only by injected faults (`cli`, `getack`, `reset`): that is this model's `stubAlive`
+for a stub created by the very handshake that uses it. -/
+namespace Conn
+
+structure C where
+  pool : Option Nat   -- id of the pooled connection (none: never dialled, or closed and removed)
+  next : Nat          -- ids handed out so far
+  stub : Option Nat   -- the connection `r.replicaCli` is bound to
+  deriving DecidableEq, Repr
+
+def C.init : C := { pool := none, next := 0, stub := none }
+
+/-- `connFct.GetClientConn` -/
+def getConn (c : C) : C × Nat :=
+  match c.pool with
+  | some i => (c, i)
+  | none => ({ c with pool := some c.next, next := c.next + 1 }, c.next)
+
+/-- `onNodeFailure` → `CloseClientConn`: close + remove -/
+def offline (c : C) : C := { c with pool := none }
+
+/-- a call through the stub goes through iff its connection is the open pooled one -/
+def stubAlive (c : C) : Bool :=
+  match c.stub with
+  | some i => c.pool == some i
+  | none => false
+
+/-- the client step of a handshake. `perHandshake = true`: IsReady creates the stub on every
+handshake; `false`: only when the replicator has none yet (a cached stub) -/
+def handshakeClient (perHandshake : Bool) (c : C) : C :=
+  if perHandshake || c.stub.isNone then
+    let (c, i) := getConn c
+    { c with stub := some i }
+  else c
+
+inductive Op | offline | handshake
+  deriving DecidableEq, Repr
+
+/-- second component: the handshake's rpc went through -/
+def step (ph : Bool) (c : C) : Op → C × Bool
+  | .offline => (offline c, true)
+  | .handshake => let c := handshakeClient ph c; (c, stubAlive c)
+
+def run (ph : Bool) (ops : List Op) : C := ops.foldl (fun c o => (step ph c o).1) C.init
+
+end Conn
 
 end LinVerif.Replication
